@@ -384,23 +384,50 @@ Definition fuel_enough : bool :=
   forallb (fun me => forallb (fun t => existsb (entry_eqb t) (trace_of (fst me) (snd me)))
                              (fst (trace_fuel 16 (fst me) (snd me)))) top_methods.
 
-(** where the add/rem hooks run: IndexedState calls them inside its write
-    lock; LinearState calls them with no lock held (Add: before it takes the
-    lock for the storage write and the memory update; Rem: before anything
-    else) *)
+(** where the add/rem hooks run.  A hook uses the state (cron's rem hook asks
+    it for the record), and the state's lock is not re-entrant: a hook is
+    called either with no lock held, or with the WRITE lock held and the
+    "hook" privilege granted (with it slock/sunlock do nothing).  IndexedState
+    calls its hooks inside the write lock; LinearState calls the add hook of
+    Add and the rem hook of Rem before it takes the lock, and - since the
+    repair of D28 - the hooks of Load, Clear/Delete and of the records that a
+    cascade, a purge or an overwrite removes inside the locked section.  The
+    walk keeps the privilege flag: [call:grantPrivilege] sets it,
+    [call:revokePrivilege] (also when deferred: entered where it runs)
+    clears it. *)
 Definition is_hook_call (e : string) : bool := mem_str e ["call:addHook"; "call:remHook"].
+Fixpoint hooks_ctx_ok (priv : bool) (tr : list tentry) : bool :=
+  match tr with
+  | [] => true
+  | t :: r =>
+      if String.eqb (te_ev t) "call:grantPrivilege" then hooks_ctx_ok true r
+      else if String.eqb (te_ev t) "call:revokePrivilege" then hooks_ctx_ok false r
+      else (negb (is_hook_call (te_ev t)) || no_lock t || (mem_str "w" (te_held t) && priv)) && hooks_ctx_ok priv r
+  end.
 Definition hook_lock_context_ok : bool :=
-  forallb (fun me =>
-             forallb (fun t => negb (is_hook_call (te_ev t)) ||
-                               (if String.eqb (before_dot (fst me)) "IndexedState"
-                                then mem_str "w" (te_held t) else no_lock t))
-                     (trace_of (fst me) (snd me)))
-          top_methods.
+  forallb (fun me => hooks_ctx_ok false (trace_of (fst me) (snd me))) top_methods.
+
+(** the privilege flag at each entry of a trace, as the walk computes it *)
+Fixpoint priv_at (priv : bool) (tr : list tentry) : list (bool * tentry) :=
+  match tr with
+  | [] => []
+  | t :: r =>
+      if String.eqb (te_ev t) "call:grantPrivilege" then (priv, t) :: priv_at true r
+      else if String.eqb (te_ev t) "call:revokePrivilege" then (priv, t) :: priv_at false r
+      else (priv, t) :: priv_at priv r
+  end.
 
 Definition hook_lock_context_statement : Prop :=
   forall m evs, In (m, evs) lock_table -> is_top m = true ->
-    forall t, In t (trace_of m evs) -> is_hook_call (te_ev t) = true ->
-      if String.eqb (before_dot m) "IndexedState" then In "w" (te_held t) else te_held t = [].
+    forall p t, In (p, t) (priv_at false (trace_of m evs)) -> is_hook_call (te_ev t) = true ->
+      te_held t = [] \/ (In "w" (te_held t) /\ p = true).
+
+(** and the hooks ARE called in both contexts (the statement is not vacuous) *)
+Definition hook_contexts_both_occur_statement : Prop :=
+  (exists m evs p t, In (m, evs) lock_table /\ is_top m = true /\ In (p, t) (priv_at false (trace_of m evs)) /\
+                     is_hook_call (te_ev t) = true /\ te_held t = []) /\
+  (exists m evs p t, In (m, evs) lock_table /\ is_top m = true /\ In (p, t) (priv_at false (trace_of m evs)) /\
+                     is_hook_call (te_ev t) = true /\ In "w" (te_held t) /\ p = true).
 
 (** ** Writers take the write lock *)
 
